@@ -85,4 +85,43 @@ example : printText Gen.table Gen.ladder Gen.symbolsC false exampleAnn
     parseText Gen.table Gen.ladder Gen.symbolsC (printText Gen.table Gen.ladder Gen.symbolsC false exampleAnn) = some exampleAnn := by
   decide +kernel
 
+/-- Terms WITH the literals `{m..n}` (interval; the two bounds written without blanks or brackets, whatever they
+are), `{x. P}` and `{x::T. P}` (set comprehension, the body never bracketed): lexing and parsing the printed text
+gives back the skeleton — the instances of `parse_print_text` for the constructors `Skel.interval`,
+`Skel.collect`, `Skel.collectT`.  (Set literals, function update and list literals are not in `Skel`.) -/
+theorem parse_print_literals (uni : Bool) (a b : Skel) (x : List Nat) (ty : Ty)
+    (hwa : a.WF Gen.table Gen.ladder) (hna : a.NamesOK Gen.symbolsC)
+    (hwb : b.WF Gen.table Gen.ladder) (hnb : b.NamesOK Gen.symbolsC)
+    (hx : NameOK Gen.symbolsC x = true ∧ idShaped x = true) (hty : ty.NamesOK Gen.symbolsC) :
+    parseText Gen.table Gen.ladder Gen.symbolsC (printText Gen.table Gen.ladder Gen.symbolsC uni (.interval a b))
+      = some (.interval a b) ∧
+    parseText Gen.table Gen.ladder Gen.symbolsC (printText Gen.table Gen.ladder Gen.symbolsC uni (.collect x a))
+      = some (.collect x a) ∧
+    parseText Gen.table Gen.ladder Gen.symbolsC (printText Gen.table Gen.ladder Gen.symbolsC uni (.collectT x ty a))
+      = some (.collectT x ty a) :=
+  ⟨parse_print_text uni (.interval a b) ⟨hwa, hwb⟩ ⟨hna, hnb⟩,
+   parse_print_text uni (.collect x a) hwa ⟨hx, hna⟩,
+   parse_print_text uni (.collectT x ty a) hwa ⟨hx, hty, hna⟩⟩
+
+/-- `f ({if m = n then 1 else 2..n + 1})`: the argument is bracketed, the bounds are not -/
+def exampleInterval : Skel :=
+  .app (.atom [102]) (.interval (.ite (.bin 0 (.atom [109]) (.atom [110])) (.atom [49]) (.atom [50])) (.bin 6 (.atom [110]) (.atom [49])))
+
+example : printText Gen.table Gen.ladder Gen.symbolsC false exampleInterval
+      = [102, 32, 40, 123, 105, 102, 32, 109, 32, 61, 32, 110, 32, 116, 104, 101, 110, 32, 49, 32, 101, 108, 115, 101, 32, 50,
+         46, 46, 110, 32, 43, 32, 49, 125, 41] ∧
+    parseText Gen.table Gen.ladder Gen.symbolsC (printText Gen.table Gen.ladder Gen.symbolsC false exampleInterval) = some exampleInterval := by
+  decide +kernel
+
+/-- `{y::nat. !z. y = z} = {y. f y}`: the bodies (a binder, an application) are not bracketed -/
+def exampleCollect : Skel :=
+  .bin 0 (.collectT [121] (.con [110, 97, 116] .nil) (.binder 1 [122] (.bin 0 (.atom [121]) (.atom [122]))))
+    (.collect [121] (.app (.atom [102]) (.atom [121])))
+
+example : printText Gen.table Gen.ladder Gen.symbolsC false exampleCollect
+      = [123, 121, 58, 58, 110, 97, 116, 46, 32, 33, 122, 46, 32, 121, 32, 61, 32, 122, 125, 32, 61, 32,
+         123, 121, 46, 32, 102, 32, 121, 125] ∧
+    parseText Gen.table Gen.ladder Gen.symbolsC (printText Gen.table Gen.ladder Gen.symbolsC false exampleCollect) = some exampleCollect := by
+  decide +kernel
+
 end Holpy.C07
